@@ -62,6 +62,9 @@ func localCfgA() any {
 		Primary string `bcl:"addr"`
 		Backup  string
 		Port    int
+		Spare1  int
+		Spare2  int
+		Listen  int `bcl:"listen"`
 	}
 	return &cfg{}
 }
@@ -82,7 +85,12 @@ var localCfgSrcB = []byte("def cfg \"b\" { addr = \"10.0.0.2\"; backup = \"c\"; 
 // process (its GOMAXPROCS setting): the parent compares the digests of the three passes, so
 // a result that depends on which type the process saw first shows as a cross-process difference.
 func historyDigest() string {
-	bindOne := func(src []byte, tg any) string {
+	bindOne := func(src []byte, tg any) (res string) {
+		defer func() {
+			if x := recover(); x != nil {
+				res = "panic: " + panicSig(x)
+			}
+		}()
 		var out, log bytes.Buffer
 		err := bcl.Unmarshal(src, tg, bcl.OptOutput(&out), bcl.OptLogger(&log))
 		return fmt.Sprintf("%+v|%s", tg, errText(err))
@@ -127,6 +135,9 @@ func orderSource(r *prng.R, kind string) string {
 	nblocks := 1
 	if slice {
 		nblocks = r.Range(1, 3)
+		if r.Chance(1, 12) {
+			nblocks = r.Range(513, 640) // a slice long enough for any "do it in parallel" idea
+		}
 	}
 	bt := "t1"
 	for b := 0; b < nblocks; b++ {
@@ -157,6 +168,9 @@ func orderSource(r *prng.R, kind string) string {
 			fmt.Fprintf(&sb, "def %s \"b%d\" {\n", bt, b)
 			// several faulty fields at once: wrong types and unknown names
 			cands := []string{`x = "notint"`, `y = 5`, `z = 1.5`, `w = true`, `nosuch = 1`, `other_missing = "q"`, `x = 3`, `y = "ok"`, `z = true`, `w = 2.5`}
+			if nblocks > 100 && !r.Chance(1, 60) {
+				cands = cands[6:] // mostly well-typed blocks; a few faulty ones, each in its own way
+			}
 			n := r.Range(2, 5)
 			seen := map[string]bool{}
 			for i := 0; i < n; i++ {
@@ -277,6 +291,9 @@ func (c16) Run(t *testing.T, sc *Scenario) *Outcome {
 	if !strings.HasPrefix(sc.Class, "order:") {
 		reps = 4
 	}
+	if len(sc.Src) > 8000 {
+		reps = 6 // long slices: what varies there is the scheduler and GOMAXPROCS, not map order
+	}
 	ref, refParts := evalOnce(sc.Src, sc.Name, target)
 	o.Digest = ref
 	o.Hash = hash64(string(sc.Src))
@@ -303,6 +320,11 @@ func (c16) Run(t *testing.T, sc *Scenario) *Outcome {
 	// (f) Execute twice on one Prog, Dump before, between and after
 	mem := ParseMem(sc.Src, sc.Name, 0)
 	if mem.Panic == "" && mem.Err == nil {
+		// other programs are parsed and run while this Prog is kept: nothing of them may show in it
+		other := append([]byte("\n\n# shifted\nvar zz9 = \"x\"\n\n"), sc.Src...)
+		if om := ParseMem(other, "other.bcl", 0); om.Panic == "" && om.Err == nil {
+			Exec(om.Prog, om.OutBuf, om.LogBuf, 0)
+		}
 		d0, _, p0 := DumpProg(mem.Prog)
 		ex1 := Exec(mem.Prog, mem.OutBuf, mem.LogBuf, 0)
 		d1, _, p1 := DumpProg(mem.Prog)
@@ -314,6 +336,17 @@ func (c16) Run(t *testing.T, sc *Scenario) *Outcome {
 		}
 		if ex1.Digest() != ex2.Digest() {
 			o.viol("C16", "prog-altered", "second execution of one Prog differs from the first", describeExecDiff(ex1, ex2), sc)
+		}
+		// the same program parsed, dumped and executed at once (refParts) must agree with the Prog that waited
+		waited := []string{"dump=" + string(d0), "output=" + ex1.Out, "warnings=" + ex1.Log, "error=" + ex1.Err}
+		for _, w := range waited {
+			k := strings.SplitN(w, "=", 2)[0]
+			for _, rp := range refParts {
+				if strings.HasPrefix(rp, k+"=") && rp != w {
+					o.viol("C16", "history", "a Prog kept while other programs were parsed differs from the same program used at once:"+k,
+						fmt.Sprintf("%s: %q vs %q", k, short(w, 300), short(rp, 300)), sc)
+				}
+			}
 		}
 		o.probe("exec_twice", 1)
 	}
